@@ -101,3 +101,12 @@ claim("C04", "DESIGN.md 5/C04",
       "windows against an independent line oracle; the built-in JSON format on 10 JSON texts with symbolic padding; "
       "and, for every decoder-less path, pel.hexdump.parse applied to the displayed dump must return the payload with a "
       "2-byte symbolic window. 62 cases, each 'Confirmed over all paths'.")
+
+claim("C18", "DESIGN.md 5/C18",
+      "parseCustom, SRC.parse / toJSON / getProcedureDesc, osrc.parseSRCToJson and m2c00.parseUDToJson are executed with "
+      "importlib replaced by a recorder: the requested module name for a symbolic creator letter and component id, the "
+      "arguments (sub-type, version, exact payload; reference code and hex words 2..9 with each word, the word count and "
+      "the creator symbolic), osrc's sub-dispatch on symbolic reference-code characters, m2c00's routing on symbolic "
+      "sub-type / version, containment (one plugin call of a full PEL returns None / '' / null or raises, including "
+      "ImportError / AttributeError: every other section must equal the well-behaved run and later sections must still "
+      "reach their parser) and --skip-parser-plugins (no import at all). 34 cases, each 'Confirmed over all paths'.")
